@@ -190,7 +190,7 @@ impl Knobs {
             pct_depth: 0,
             stall_pm: 0,
             stall_steps: 0,
-            max_steps: 400_000,
+            max_steps: 60_000,
         }
     }
     pub fn draw(rng: &mut Rng) -> Knobs {
@@ -209,7 +209,7 @@ impl Knobs {
             pct_depth: rng.range(1, 5) as u32,
             stall_pm: *rng.pick(&[0u32, 0, 5, 20, 60]),
             stall_steps: rng.range(20, 400) as u32,
-            max_steps: 400_000,
+            max_steps: 60_000,
         }
     }
 }
